@@ -19,7 +19,8 @@ RULE = ("(crash, exhaustive) for two writers - SimpleProcessTensor.export and a 
         "initial-tensor write at creation, each MPO tensor, each cap, and at entry of close) in each of four crash modes "
         "(SIGKILL, os._exit, unhandled exception followed by normal interpreter shutdown, SIGKILL after an HDF5 flush); in "
         "the two modes that leave flushed data the writer additionally assigns name and description of the open file object "
-        "after an early, a middle or the last write before dying at or after that point; the "
+        "after an early, a middle or the last write before dying at or after that point, or stamps the file with another "
+        "library version; the "
         "file is then opened with import_process_tensor as 'file' and 'simple'. Oracle: the reader raises or warns 'may be "
         "corrupt' - it never returns an object silently; an uninterrupted writer leaves a file that opens without that "
         "warning and with complete content. (modes) Hypothesis-generated sequences of create(write|overwrite)/read/remove "
@@ -38,9 +39,9 @@ MODES = ["kill", "_exit", "exc", "flushkill"]
 WRITER = os.path.join(VERIF_DIR, "vlib", "crash_writer.py")
 
 
-def _run_writer(fn, writer, mode, k, N, rename_at=0):
+def _run_writer(fn, writer, mode, k, N, rename_at=0, other_version=None):
     env = dict(os.environ, PYTHONHASHSEED="0")
-    return subprocess.run([sys.executable, WRITER, REPO_DIR, fn, writer, mode, str(k), str(N), str(rename_at)],
+    return subprocess.run([sys.executable, WRITER, REPO_DIR, fn, writer, mode, str(k), str(N), str(rename_at), other_version or "-"],
                           capture_output=True, text=True, env=env, timeout=300)
 
 
@@ -81,6 +82,11 @@ def crash_cases(tier):
                         for k in sorted({r_at, min(n, r_at + 1), n}) + [-1]:
                             cases.append({"writer": writer, "N": N, "mode": mode, "k": k, "ops": n, "rename_at": r_at})
                 cases.append({"writer": writer, "N": N, "mode": "none", "k": 0, "ops": n, "rename_at": max(1, n // 2)})
+                # the file was written by another release of the library (other version stamp), interrupted or not
+                for mode in ("exc", "flushkill"):
+                    for k in sorted({1, max(1, n // 2), n}) + [-1]:
+                        cases.append({"writer": writer, "N": N, "mode": mode, "k": k, "ops": n, "other_version": "0.0.1"})
+                cases.append({"writer": writer, "N": N, "mode": "none", "k": 0, "ops": n, "other_version": "0.0.1"})
     return cases
 
 
@@ -114,7 +120,9 @@ def run_crash(case):
     tmp = tempfile.mkdtemp(prefix="verif_c17_")
     try:
         fn = os.path.join(tmp, "pt.hdf5")
-        r = _run_writer(fn, case["writer"], case["mode"], case["k"], case["N"], case.get("rename_at", 0))
+        r = _run_writer(fn, case["writer"], case["mode"], case["k"], case["N"], case.get("rename_at", 0), case.get("other_version"))
+        if case.get("other_version"):
+            out.label("written-by-another-release")
         mode, k = case["mode"], case["k"]
         out.label("writer=" + case["writer"], "mode=" + mode)
         if case.get("rename_at"):
@@ -142,7 +150,8 @@ def run_crash(case):
             status, exc, info = _read(fn, typ)
             out.label("reader-" + status)
             if status == "silent":
-                out.fail(f"silently-opened:{mode}" + (":after-name-assignment" if case.get("rename_at") else ""),
+                out.fail(f"silently-opened:{mode}" + (":after-name-assignment" if case.get("rename_at") else "")
+                         + (":other-release" if case.get("other_version") else ""),
                          f"writer={case['writer']} crash after op {k} of {case['ops']} ({mode}"
                          + (f", name/description assigned after op {case['rename_at']}" if case.get("rename_at") else "") + "): "
                          f"import '{typ}' returned an object without warning, (len, caps present) = {info}")
